@@ -183,7 +183,7 @@ func (st *State) top() *Frame { return st.frames[len(st.frames)-1] }
 
 func (ex *Exec) setGuard(st *State, g *Term) {
 	st.G = g
-	st.ctx = ex.tb.CtxOf(g)
+	st.ctx = ex.tb.CtxOf(ex.full(g))
 }
 
 func (f *Frame) clone() *Frame {
@@ -228,7 +228,7 @@ func (ex *Exec) position(st *State) {
 	var ord []int
 	var sb strings.Builder
 	if st.thread != nil {
-		fmt.Fprintf(&sb, "T%d|", st.thread.ID)
+		fmt.Fprintf(&sb, "T[%s]|", st.thread.Key)
 	}
 	for _, f := range st.frames {
 		start := len(ord)
@@ -334,35 +334,42 @@ type Exec struct {
 	extGlobals  map[string]Value
 
 	// statistics
-	NInstr       int
-	NStates      int
-	NMerges      int
-	NFeas        int
-	FuncsSeen    map[string]string
-	Intrinsics   map[string]int
-	Inconcl      []string
-	FeasTimeout  int
-	QueryMs      int
-	sched        *Sched
-	curThread    *Thread
-	clock        *Term
-	start        time.Time
-	fmtIDs       map[string]int
-	Trace        bool
-	nSel         int
-	adoptSeq     int
-	selCount     map[string]int
-	nArm         int
-	allocCache   map[string]*Object
-	threadCache  map[string]*Thread
-	nRand        int
-	nErr         int
-	randQueue    []*Term
-	KnownIDs     map[string]bool
-	AssertPrefix string
-	nNow         int
-	lastNow      *Term
-	timerOf      map[*Object]*timerRec
+	NInstr         int
+	NStates        int
+	NMerges        int
+	NFeas          int
+	FuncsSeen      map[string]string
+	Intrinsics     map[string]int
+	Inconcl        []string
+	FeasTimeout    int
+	QueryMs        int
+	sched          *Sched
+	curThread      *Thread
+	clock          *Term
+	start          time.Time
+	fmtIDs         map[string]int
+	Trace          bool
+	nSel           int
+	adoptSeq       int
+	SolverRestarts int
+	curWorld       *World
+	baseG          *Term // guard of the world whose segment is being executed (goroutine mode)
+	nArrSel        int
+	dbgOnce        bool
+	selCallers     map[string]int
+	maxArrDepth    int
+	selCount       map[string]int
+	nArm           int
+	allocCache     map[string]*Object
+	threadCache    map[string]*Thread
+	nRand          int
+	nErr           int
+	randQueue      []*Term
+	KnownIDs       map[string]bool
+	AssertPrefix   string
+	nNow           int
+	lastNow        *Term
+	timerOf        map[*Object]*timerRec
 }
 
 func NewExec(prog *ssa.Program, tb *TB, solver *Solver, bv bool) *Exec {
@@ -403,7 +410,7 @@ func (ex *Exec) posString(p token.Pos) string {
 
 // addAssume conjoins g => c to the assumption set.
 func (ex *Exec) addAssume(g, c *Term) {
-	t := ex.tb.Implies(g, c)
+	t := ex.tb.Implies(ex.full(g), c)
 	if t.IsTrue() {
 		return
 	}
@@ -417,7 +424,7 @@ func (ex *Exec) oblige(st *State, kind, label string, cond *Term, pos token.Pos)
 	if cond.IsTrue() && kind != "cover" {
 		return nil
 	}
-	o := &Obligation{Kind: kind, Label: label, G: st.G, Cond: cond, NAssume: len(ex.assumes), Pos: ex.posString(pos)}
+	o := &Obligation{Kind: kind, Label: label, G: ex.full(st.G), Cond: cond, NAssume: len(ex.assumes), Pos: ex.posString(pos)}
 	if st.thread != nil {
 		o.Thread = st.thread.ID
 	}
@@ -447,11 +454,19 @@ func (ex *Exec) feasible(g *Term) bool {
 	if g.IsFalse() {
 		return false
 	}
+	if g.IsTrue() && ex.baseG != nil {
+		// inside a world: the world's own guard is taken to be satisfiable
+		return true
+	}
 	if g.IsTrue() || ex.Solver == nil {
 		return true
 	}
 	ex.NFeas++
 	t0 := time.Now()
+	g = ex.full(g)
+	if ex.Solver.dead {
+		ex.restartSolver()
+	}
 	r := ex.Solver.Check([]*Term{g}, ex.FeasTimeout)
 	ex.Solver.Pop()
 	if d := time.Since(t0); d > 200*time.Millisecond && os.Getenv("VERIF_DEBUG") != "" {
@@ -757,8 +772,33 @@ func (ex *Exec) freshInt(name string, lo, hi *big.Int) *Term {
 	if v, ok := ex.Fixed[name]; ok {
 		bi, ok := new(big.Int).SetString(v, 10)
 		if ok {
+			if ex.BV {
+				return ex.tb.BVBig(8, bi)
+			}
 			return ex.tb.IntBig(bi)
 		}
 	}
+	if ex.BV {
+		v := ex.tb.Var(name, SBV(8), nil, nil)
+		if hi != nil {
+			ex.addAssume(ex.tb.True, ex.tb.BVUle(v, ex.tb.BVBig(8, hi)))
+		}
+		return v
+	}
 	return ex.tb.Var(name, SInt, lo, hi)
+}
+
+// restartSolver replaces a dead main solver and re-asserts the assumptions.
+func (ex *Exec) restartSolver() {
+	old := ex.Solver
+	s, err := NewSolver(ex.tb, old.kind, "")
+	if err != nil {
+		return
+	}
+	s.IntW = old.IntW
+	for _, a := range ex.assumes {
+		s.AssertBase(a)
+	}
+	ex.SolverRestarts++
+	ex.Solver = s
 }
